@@ -77,3 +77,20 @@ def lossyPushes (b : Bytes) : List (Option Bytes) :=
   (utf8Chunks b).flatMap fun (v, i) => if i.isEmpty then [some v] else [some v, some replacement]
 
 end LS
+
+namespace LS
+
+/-- `char::decode_utf16`: each item is the UTF-8 bytes of a decoded char, or `none` for an unpaired surrogate -/
+def decodeUtf16 : List Nat → List (Option Bytes)
+  | [] => []
+  | u :: rest =>
+    if u < 0xD800 ∨ 0xDFFF < u then some (String.utf8EncodeChar (Char.ofNat u)) :: decodeUtf16 rest
+    else if u ≥ 0xDC00 then none :: decodeUtf16 rest
+    else match rest with
+      | [] => [none]
+      | u2 :: rest2 =>
+        if 0xDC00 ≤ u2 ∧ u2 ≤ 0xDFFF then
+          some (String.utf8EncodeChar (Char.ofNat (0x10000 + (u - 0xD800) * 0x400 + (u2 - 0xDC00)))) :: decodeUtf16 rest2
+        else none :: decodeUtf16 (u2 :: rest2)
+
+end LS
